@@ -25,7 +25,7 @@ class World:
     run_timeout = 60.0
     required_probes = ["defective_generator", "shifted_start", "coarser_step",
                        "edit_between_make_and_use", "reassign_rate", "zero_rate",
-                       "refused_diagonal", "unaligned_shift", "complex_spectrum", "main_axis_start_nonzero", "propagation_matrix_with_corrections"]
+                       "refused_diagonal", "unaligned_shift", "complex_spectrum", "main_axis_start_nonzero", "propagation_matrix_with_corrections", "step_ratio_not_an_exact_integer"]
     required_faults = ["refused_diagonal_set", "refused_bad_assignment"]
     components = {
         "real": ["quantarhei RateMatrix.set_rate", "PopulationPropagator.propagate",
@@ -51,6 +51,8 @@ class World:
         dt = rng.choice(DTS) if rng.random() < 0.85 else rng.choice(INEXACT_DTS)
         Nt = rng.choice([8, 16, 33, 64, 120])
         t0 = rng.choice([0.0, 0.0, 0.0, 3.0, -3.0, 0.5, 12.0, -0.25]) if dt in DTS else 0.0
+        if dt in INEXACT_DTS:
+            Nt = rng.choice([100, 200])      # room for coarse steps whose floating-point ratio to dt is not an exact integer
         # ||K|| dt between 1e-3 and ~0.6
         kscale = (10 ** rng.uniform(-3, -0.5)) / dt
         nops = rng.randint(3, 30 if tier == "quick" else 45)
@@ -85,6 +87,8 @@ class World:
                 ops.append({"op": "propagate", "p0": p0})
             else:
                 m = rng.choice([1, 2, 3, 4, 5])
+                if dt in INEXACT_DTS and rng.random() < 0.5:
+                    m = rng.choice([43, 81, 86, 91] if dt == 0.1 else [31, 57, 62])
                 s = rng.choice([0, 0, 1, 2, 3, 5, 7])
                 ln = rng.randint(2, 12)
                 ops.append({"op": "prop_matrix", "m": m, "s": s, "len": ln, "corr": rng.choice([-1, -1, -1, 0, 1, 2]),
@@ -272,6 +276,8 @@ class World:
                 Know = check_matrix("before prop_matrix %d" % idx)
                 if m > 1:
                     ctx.probe("coarser_step")
+                if not exact and abs(round(float(sub.step) / dt) - float(sub.step) / dt) > 0:
+                    ctx.probe("step_ratio_not_an_exact_integer")
                 if s > 0:
                     ctx.probe("shifted_start")
                     if s % m != 0:
